@@ -35,9 +35,39 @@
 
 #include "layout.hh"
 
+#ifdef DWGREP_VERIF
+#include <map>
+#include <typeinfo>
+#include <type_traits>
+#endif
+
 class scon
 {
   std::vector <uint8_t> m_buf;
+
+#ifdef DWGREP_VERIF
+  // Shadow map of live states: offset -> (size, type, trivially
+  // destructible).  Maintained by con/des, consulted by get and by the
+  // destructor.  Any life-cycle violation prints a "DWGREP_VERIF scon:"
+  // diagnostic and aborts.
+  struct verif_entry
+  {
+    size_t m_size;
+    char const *m_type;
+    bool m_trivial;
+  };
+  std::map <size_t, verif_entry> m_verif_live;
+
+  void verif_con (size_t loc, size_t size, char const *type, bool trivial);
+  void verif_des (size_t loc, size_t size, char const *type);
+  void verif_get (size_t loc, size_t size, char const *type);
+
+public:
+  ~scon ();
+  scon (scon const &) = delete;
+
+private:
+#endif
 
   void *
   mem (layout::loc loc)
@@ -52,6 +82,9 @@ public:
   State &
   get (layout::loc loc)
   {
+#ifdef DWGREP_VERIF
+    verif_get (loc.m_loc, sizeof (State), typeid (State).name ());
+#endif
     return *reinterpret_cast <State *> (this->mem (loc));
   }
 
@@ -59,6 +92,10 @@ public:
   void
   con (layout::loc loc, Args const&... args)
   {
+#ifdef DWGREP_VERIF
+    verif_con (loc.m_loc, sizeof (State), typeid (State).name (),
+	       std::is_trivially_destructible <State>::value);
+#endif
     new (this->mem (loc)) State {args...};
   }
 
@@ -66,6 +103,9 @@ public:
   void
   des (layout::loc loc)
   {
+#ifdef DWGREP_VERIF
+    verif_des (loc.m_loc, sizeof (State), typeid (State).name ());
+#endif
     this->get <State> (loc).~State ();
   }
 
